@@ -279,7 +279,9 @@ where
                         (format.0, "note: format given here"),
                     ]);
                 }
-                if max_clause.1 != num_clauses.1 - 1 {
+                // `max_clause.1 <= MAX_CAPACITY`, so the addition cannot overflow
+                // (`num_clauses.1 - 1` underflowed for `p cnf <n> 0`)
+                if max_clause.1 + 1 != num_clauses.1 {
                     return fail_with_contexts([
                         (num_clauses.0, "number of clauses does not match"),
                         (max_clause.0, "note: maximal clause number given here"),
